@@ -1,10 +1,11 @@
 """C05 — RaggedArray directory stays structurally well-formed and self-describing."""
 import ast
+from ..pathcond import inline, canon, find_defs, runs_under
 
 from ..rules import must_precede, must_follow
 from ..cfg import cfg_of
 from ..effects import MUTATING
-from ..astutil import dotted, get_arg, derived, norm, enclosing, names_in, defs_of
+from ..astutil import dict_entries, dotted, get_arg, derived, norm, enclosing, names_in, defs_of
 from ..srcmodel import own_nodes, AnalysisError
 from .C17 import find_committer, find_appenders, subarray_role, d3_two_file_order
 from .C10 import find_step
@@ -157,15 +158,23 @@ def d2_keysets(ctx, RA):
     init = RA.methods['__init__']
     f = ctx.repo.func('raggedarray.asraggedarray')
 
-    def keys_of(func, var):
-        out = {}
-        for n in own_nodes(func.node):
-            if isinstance(n, ast.Assign) and len(n.targets) == 1 and isinstance(n.targets[0], ast.Subscript) and \
-                    norm(n.targets[0].value) == var and isinstance(n.targets[0].slice, ast.Constant):
-                out[n.targets[0].slice.value] = n.value
-        return out
-    k1 = keys_of(init, 'arrayinfo')
-    k2 = keys_of(f, 'datainfo')
+    # the dictionaries are found by role, not by name: the one stored in self._arrayinfo (a local or a
+    # literal) and the one handed as `d=` to the writer of the top-level description file
+    def resolve(func, expr):
+        if isinstance(expr, ast.Name):
+            return dict_entries(func.node, expr.id)
+        if isinstance(expr, ast.Dict):
+            return {k.value: v for k, v in zip(expr.keys, expr.values) if isinstance(k, ast.Constant)}
+        return {}
+    k1 = {}
+    for fn_, val, st in RA.attr_exprs.get('_arrayinfo', []):
+        if fn_ is init:
+            k1 = resolve(init, val)
+    k2 = {}
+    for n, cal in ctx.E.callees(f):
+        if cal.qualname == 'DataDir._write_jsondict' and isinstance(n, ast.Call) and \
+                ctx.E._name_of(get_arg(n, 0, 'filename'), f) == ('lit', 'arraydescription.json'):
+            k2 = resolve(f, get_arg(n, 1, 'd'))
     ctx.decide(set(k1) == KEYS, 'R-SIB', 'D2', init, None, 'keyset-in-memory',
                f'RaggedArray.__init__ builds the top-level descriptor with keys {sorted(KEYS)}', detail=f'keys are {sorted(k1)}')
     ctx.decide(set(k2) == KEYS, 'R-SIB', 'D2', f, None, 'keyset-written',
@@ -273,9 +282,21 @@ def d4_cutpoint(ctx):
         ok = bool(defs)
         for v, st in defs:
             if isinstance(v, ast.Constant) and v.value == 0:
-                # only when newlen == 0
-                g = any(isinstance(p, ast.If) and fld == 'body' and norm(p.test).endswith('== 0') for p, fld in enclosing(f.node, st))
-                ok = ok and g
+                # the literal cut point 0 is used only when the new length is 0 (path conditions, any layout)
+                from . import _trunc
+                nls = _trunc.find_newlen(f, f.params[1]) if len(f.params) > 1 else []
+                if len(nls) != 1:
+                    ok = False
+                    continue
+                L = 5
+                res = {}
+                for nl in (0, 1, 3):
+                    env = dict(_trunc.int_gate_env(f.params[1], True))
+                    env[nls[0][0]] = nl
+                    for k in _trunc.len_keys(f.params[0]):
+                        env[k] = L
+                    res[nl] = runs_under(f, st, _trunc.folder(env))
+                ok = ok and res[0] is not False and res[1] is False and res[3] is False
                 continue
             reads_idx = any(isinstance(x, ast.Subscript) and subarray_role(ctx, x.value, f) == 'INDICESDIR'
                             for x in ast.walk(v) if isinstance(x, ast.Subscript) and not isinstance(x.value, ast.Subscript))
